@@ -336,6 +336,26 @@ class Report:
         return 0
 
 
+def leanchecker(modules):
+    """independent re-check of compiled modules (and everything they import) by Lean's external checker"""
+    t0 = time.time()
+    r = sh(["lake", "env", "leanchecker"] + modules, cwd=LEAN, timeout=1800)
+    return r.returncode == 0, (r.stdout + r.stderr)[-600:], round(time.time() - t0, 1)
+
+
+def theorem_modules(names):
+    """the modules in which the listed theorems are stated"""
+    mods = set()
+    for path in lean_sources():
+        if os.sep + "Wax" + os.sep not in path:
+            continue
+        text = open(path, encoding="utf-8").read()
+        for n in names:
+            if re.search(r"theorem\s+(?:[\w.]*\.)?%s\b" % re.escape(n.split(".")[-1]), text):
+                mods.add(os.path.relpath(path, LEAN)[:-5].replace(os.sep, "."))
+    return sorted(mods)
+
+
 def proof_step(rep, build, prop):
     """Step 3 of the driver: obligations of the property."""
     spec = obligations(prop)
@@ -356,6 +376,15 @@ def proof_step(rep, build, prop):
         rep.violation("obligation", "theorem %s: %s" % (t, why), {"theorem": t})
     for kind, name, detail in build.failures:
         rep.violation("obligation", name, {"detail": detail[-600:]})
+    if rep.tier == "thorough" and not build.failures:
+        mods = theorem_modules([t["name"] for t in ths])
+        ok_lc, out_lc, secs = leanchecker(mods)
+        rep.obligations += 1
+        if ok_lc:
+            rep.discharged += 1
+        else:
+            rep.violation("obligation", "leanchecker rejects the compiled modules of the property's theorems", {"modules": mods, "output": out_lc})
+        rep.extra["leanchecker"] = {"modules": mods, "ok": ok_lc, "seconds": secs}
     rep.extra["build_times_s"] = build.times
     rep.extra["build_notes"] = build.notes
     rep.assumptions = spec.get("assumptions", [])
